@@ -97,12 +97,16 @@ Whole == /\ IsEv("whole")
 Budget == /\ IsEv("budget")
           /\ UNCHANGED <<B, content, L, cmode, dagEq, missing, mode, pos, pre, tgt, firstReq>>
 
+\* a byte range through a subset-matcher traversal over the node (no reader state involved)
+Subset == /\ IsEv("subset")
+          /\ firstReq' = AddReq(firstReq, E.loads)
+          /\ UNCHANGED <<B, content, L, cmode, dagEq, missing, mode, pos, pre, tgt>>
 \* the environment makes every block available again; readers and nodes keep their state
 Heal == /\ IsEv("heal") /\ missing' = {}
         /\ UNCHANGED <<B, content, L, cmode, dagEq, mode, pos, pre, tgt, firstReq>>
 Done == l = Len(Trace) + 1 /\ UNCHANGED vars
 
-Next == Reset \/ Dag \/ OpenNode \/ Open \/ Seek \/ Read \/ Whole \/ Budget \/ Heal \/ Done
+Next == Reset \/ Dag \/ OpenNode \/ Open \/ Seek \/ Read \/ Whole \/ Budget \/ Heal \/ Subset \/ Done
 TraceSpec == Init /\ [][Next]_vars
 
 (***************************************************************************)
@@ -159,6 +163,11 @@ Cond_C05_Seek == (Has /\ Ev.ev = "seek") =>
 Cond_C05_Open == (Has /\ (Ev.ev = "open" \/ (Ev.ev = "opennode" /\ Ev.how # "preload"))) =>
                  Ev.loads = <<>>
 
+\* the range [a,b) through a subset-matcher traversal: exactly those bytes, only the blocks the range needs
+Cond_C05_Subset == (Has /\ Ev.ev = "subset") =>
+                 /\ NoFault => (Ev.e = "nil" /\ Ev.n = Ev.b - Ev.a /\ DataOK(Ev.a, Ev.n))
+                 /\ \A m \in 1 .. Len(Ev.loads) : Ev.loads[m] \in NeededC(B, Ev.a, Ev.b)
+
 \* C06: preload fetches the whole entity or fails
 Cond_C06_Preload == (Has /\ Ev.ev = "opennode" /\ Ev.how = "preload") =>
                  /\ Ev.e = "nil" => (SeqToSet(Ev.loads) = AllC \ {B[1].c} /\ NoFault)
@@ -204,6 +213,7 @@ Inv_C04_NoBudget == Chk("Inv_C04_NoBudget", Cond_C04_NoBudget)
 Inv_C05_Read == Chk("Inv_C05_Read", Cond_C05_Read)
 Inv_C05_Seek == Chk("Inv_C05_Seek", Cond_C05_Seek)
 Inv_C05_Open == Chk("Inv_C05_Open", Cond_C05_Open)
+Inv_C05_Subset == Chk("Inv_C05_Subset", Cond_C05_Subset)
 Inv_C06_Preload == Chk("Inv_C06_Preload", Cond_C06_Preload)
 Inv_C12_Read == Chk("Inv_C12_Read", Cond_C12_Read)
 Inv_C12_Whole == Chk("Inv_C12_Whole", Cond_C12_Whole)
